@@ -63,6 +63,7 @@ type c02Case struct {
 	MC int        `json:"mc"` // Config.MaxConns, 0 = off
 	MB int        `json:"mb"` // Config.MaxBytes, 0 = off
 	V  bool       `json:"v,omitempty"`
+	NR bool       `json:"nr,omitempty"` // guards tier only: RecoverHandler is left out of the composition
 	R  []c02Route `json:"r"`
 	G  [][]c02Req `json:"g"` // groups, 11 s apart
 }
@@ -503,7 +504,11 @@ func c02Judge(c c02Case, flat []c02Flat, obs []*c02Obs, maxCur []int32, cls map[
 		if !o.done {
 			return who + ": the client never received a response (ServeHTTP did not return within the horizon)"
 		}
-		if o.escaped != "" {
+		// Without RecoverHandler (guards tier, NR cases) the statement says nothing about
+		// the response to a panicking handler; only "the process survives, the latch
+		// token comes back, nobody hangs" is checked for such a request.
+		unrecovered := c.NR && p.panics && (p.d < 0 || p.f <= p.d)
+		if o.escaped != "" && !unrecovered {
 			return who + ": a panic escaped the chain; net/http would drop the connection without a response: " + o.escaped
 		}
 		if len(o.rec.late) > 0 {
@@ -609,6 +614,13 @@ func c02Judge(c c02Case, flat []c02Flat, obs []*c02Obs, maxCur []int32, cls map[
 		}
 		if o.exited != 1 {
 			return fmt.Sprintf("%s: handler goroutine still running at the horizon", who)
+		}
+		if unrecovered {
+			cls["panic-without-recover-guard"] = true
+			if o.escaped != "" {
+				cls["panic-propagated-to-server-goroutine"] = true
+			}
+			continue
 		}
 		if t > 0 && o.rec.whCalls != 1 {
 			return fmt.Sprintf("%s: %d WriteHeader calls reached the client, want exactly one response; got %s", who, o.rec.whCalls, got)
@@ -738,7 +750,20 @@ func c02Judge(c c02Case, flat []c02Flat, obs []*c02Obs, maxCur []int32, cls map[
 // ---------------------------------------------------------------------------
 // generator
 
-func c02Gen(rt *rapid.T) c02Case {
+func c02Gen(rt *rapid.T) c02Case { return c02GenFor(false)(rt) }
+
+// c02GenFor(true) additionally draws cases whose composition has no RecoverHandler.
+func c02GenFor(allowNR bool) func(rt *rapid.T) c02Case {
+	return func(rt *rapid.T) c02Case {
+		c := c02GenCase(rt)
+		if allowNR {
+			c.NR = rapid.IntRange(0, 5).Draw(rt, "norecover") == 0
+		}
+		return c
+	}
+}
+
+func c02GenCase(rt *rapid.T) c02Case {
 	c := c02Case{}
 	if rapid.IntRange(0, 6).Draw(rt, "toff") == 0 {
 		c.T = 0
